@@ -22,6 +22,10 @@ CLAIMED = {
             "Theorems (Properties_C15.v): the regenerated table of (rule, version gate, recommended std APIs with first Go version) satisfies 'every recommended API is older than 1.13 or covered by the rule's gate' (re-proved by vm_compute on every run) and therefore, for EVERY definite target version V >= 1.13, a rule whose gate admits V recommends only APIs existing in V (C15_no_future_api, unbounded in V); no version = newest; the linter's and the rule engine's comparators coincide and are lexicographic; accepted version strings have the shape <int>.<int> with optional go prefix; all three checker kinds consult the configured version (pre-fix dynamic plumbing refuted). Tie: linter.ParseGoVersion/GreaterOrEqual vs model on generated strings/grid; every gated group run on its positive examples at each version 1.13..newest+1/unset (fires iff gate_ok over the table); a user rule file through the dynamic checker; CLI -go end to end. Oracle: API tokens of diagnostics vs GOROOT/api at version V.",
             "Trusted: Coq kernel + vm_compute; translator (IR walk, template tokenizer, api parser); ruleguard's filter evaluation is tied behaviourally, not modelled; methods' first version = min over std types.",
             "§5 C15"),
+    "C19": ("Coq theorems over the CLI step machine and the analyzer's cache/latch state machine (induction over pass histories) + correspondence on in-process pass histories and a fault matrix on the built binaries",
+            "Theorems (Properties_C19.v): every invalid CLI configuration ends in log.Fatalf naming a step, never a panic (pre-fix runner refuted); for EVERY history of analyzer passes with arbitrarily changing flags no pass panics, an invalid configuration yields one init error followed only by skipped passes whatever the number of packages, a valid one behaves uniformly, and diagnostics only come from a fully initialised configuration (invariant cache_ok); the pre-fix second-pass nil dereference is refuted. Tie: all histories of length <= 3 over five flag configurations plus random longer ones are driven through Analyzer.Run in-process from a reset global state and compared in Coq with run_passes; the CLI step order is tied by single and paired faults on both mains. Oracle: fault matrix {bad -go, empty selection, unknown failOn, rules pattern without match, unparsable parameter, loader failure} x package counts x four binaries: non-zero exit, message names the problem, no panic/goroutine trace, no diagnostics; broken target packages (syntax/type errors, unresolved import, mixed package clauses) must not crash.",
+            "Trusted: Coq kernel + vm_compute; configurations are abstracted to outcomes of fallible steps; go/packages behaviour on broken packages is oracle-only (partial).",
+            "§5 C19"),
 }
 
 NOT_APPLICABLE = {}
